@@ -19,7 +19,7 @@ NP, CO, FEAT, BASE = C03.NP, C03.CO, C03.FEAT, C03.BASE
 HC = "elexmodel.client.HistoricalModelClient"
 ASSUMPTIONS = C03.ASSUMPTIONS + [
     "A-QR / Featurizer / outlier model as FUNCTIONS of their requests: provably equal inputs give equal outputs (and nothing is assumed when the inputs differ)",
-    "Featurizer reads only feature / fixed-effect columns, postal_code, reporting, unit_category (checked by the bounded C16 stand-in, not proved)",
+    "Featurizer reads only feature / fixed-effect columns, postal_code, reporting, unit_category: proved on the real class for every configuration of the C16 featurizer units (obligation matrices_depend_only_on_...), for level names from a finite universe",
     "scope: versioned_data_handler is None and correct_from_presidential is False (defaults); the extrapolation path merges across units and is NOT verified; bootstrap estimator: see the bounded companion; gaussian aggregates: units gaussian.aggregate_intervals.* (contracts/C15.py) -- every group's bound is proved to be a function of its own outstanding rows and of calibration statistics only",
 ]
 BOUNDED = [{"name": "perturbation_pairs", "script": "c10_pairs.py", "timeout": 1500}, {"name": "gaussian_floor_terms_stay_in_their_own_group", "script": "c15_gaussian.py", "timeout": 2400}]
